@@ -263,22 +263,25 @@ theorem upa_of_disjoint (sigma : List QN) (v11 : Bool) (p : Particle)
 
   Full statement (false for the pinned algorithm, see the counter-examples below):
       `∀ M p, M.accepts p = true ↔ UPA Σ v11 p ∧ EDC T p`.
-  Proved: the statement for every `choice(e1 … en){1,1}` of plain element particles with arbitrary
-  occurrence ranges (both XSD versions, no substitution groups), any number of members. -/
+  Proved: the statement for every `choice(e1 … en){lo,hi}` (hi ≠ 0) of plain element particles with
+  arbitrary occurrence ranges (both XSD versions, no substitution groups), any number of members. -/
 
-/-- guard of the partial refinement theorem: the model is `flatChoice r items`, the context `M` returns
-    the data of the items, the names are in Σ, the occurrence ranges are well formed and the type table
-    lists the declaration of each item -/
-structure Frag15 (M : Ctx) (sigma : List QN) (T : TypeTable) (r : Nat) (items : List FItem) : Prop where
+/-- guard of the partial refinement theorem: the model is `flatChoice r lo hi items` (root occurrence
+    range well formed and not `maxOccurs = 0`), the context `M` returns the data of the items, the names
+    are in Σ, the occurrence ranges are well formed and the type table lists the declaration of each item -/
+structure Frag15 (M : Ctx) (sigma : List QN) (T : TypeTable) (r lo : Nat) (hi : Option Nat)
+    (items : List FItem) : Prop where
   ctx : FlatCtx M r items
+  rootHi : hi ≠ some 0
+  rootOcc : Rx.loLeHi lo hi = true
   names : ∀ it ∈ items, it.name ∈ sigma
   occ : ∀ it ∈ items, Rx.loLeHi it.lo it.hi = true
   types : ∀ it ∈ items, T.decls it.id = [(it.name, (M.info it.id).ty)]
 
-theorem declsOf_flat {M : Ctx} {sigma : List QN} {T : TypeTable} {r : Nat} {items : List FItem}
-    (h : Frag15 M sigma T r items) (d : QN × Nat) :
-    d ∈ declsOf T (flatChoice r items) ↔ ∃ it ∈ live items, d = (it.name, (M.info it.id).ty) := by
-  simp only [declsOf, liveLeaves_flatChoice, List.mem_flatMap, List.mem_map]
+theorem declsOf_flat {M : Ctx} {sigma : List QN} {T : TypeTable} {r lo : Nat} {hi : Option Nat} {items : List FItem}
+    (h : Frag15 M sigma T r lo hi items) (d : QN × Nat) :
+    d ∈ declsOf T (flatChoice r lo hi items) ↔ ∃ it ∈ live items, d = (it.name, (M.info it.id).ty) := by
+  simp only [declsOf, liveLeaves_flatChoice r lo h.rootHi, List.mem_flatMap, List.mem_map]
   constructor
   · rintro ⟨l, ⟨it, hit, rfl⟩, hd⟩
     have hmem : it ∈ items := (List.mem_filter.mp hit).1
@@ -288,15 +291,16 @@ theorem declsOf_flat {M : Ctx} {sigma : List QN} {T : TypeTable} {r : Nat} {item
     have hmem : it ∈ items := (List.mem_filter.mp hit).1
     exact ⟨it.leaf, ⟨it, hit, rfl⟩, by simp [FItem.leaf, h.types it hmem]⟩
 
-/-- **The pinned `check_model` is exact on flat choices**: for every choice group `{1,1}` whose
-    members are plain element particles (any number, any occurrence ranges), the port accepts the
-    model iff it satisfies Unique Particle Attribution and Element Declarations Consistent. -/
-theorem checkModel_refines_partial {M : Ctx} {sigma : List QN} {T : TypeTable} {r : Nat} {items : List FItem}
-    (h : Frag15 M sigma T r items) :
-    M.accepts (flatChoice r items) = true ↔
-      UPA sigma M.v11 (flatChoice r items) ∧ EDC T (flatChoice r items) := by
-  rw [accepts_flat h.ctx]
-  have hnoany : ∀ x, isAnyId (flatChoice r items) x = false := by
+/-- **The pinned `check_model` is exact on flat choices**: for every choice group (any occurrence range
+    other than `maxOccurs = 0`) whose members are plain element particles (any number of members, any
+    occurrence ranges, both XSD versions), the port accepts the model iff it satisfies Unique Particle
+    Attribution and Element Declarations Consistent. -/
+theorem checkModel_refines_partial {M : Ctx} {sigma : List QN} {T : TypeTable} {r lo : Nat} {hi : Option Nat}
+    {items : List FItem} (h : Frag15 M sigma T r lo hi items) :
+    M.accepts (flatChoice r lo hi items) = true ↔
+      UPA sigma M.v11 (flatChoice r lo hi items) ∧ EDC T (flatChoice r lo hi items) := by
+  rw [accepts_flat h.ctx lo h.rootHi]
+  have hnoany : ∀ x, isAnyId (flatChoice r lo hi items) x = false := by
     intro x
     simp only [isAnyId, flatChoice, Particle.leaves, leaves_mkParticles, List.any_eq_false, List.mem_map]
     rintro l ⟨it, _, rfl⟩
@@ -313,7 +317,7 @@ theorem checkModel_refines_partial {M : Ctx} {sigma : List QN} {T : TypeTable} {
     refine ⟨?_, ?_⟩
     · apply upa_of_disjoint
       intro l1 h1 l2 h2 hne a _ ⟨hm1, hm2⟩
-      rw [liveLeaves_flatChoice] at h1 h2
+      rw [liveLeaves_flatChoice r lo h.rootHi] at h1 h2
       obtain ⟨it, hit, rfl⟩ := List.mem_map.mp h1
       obtain ⟨jt, hjt, rfl⟩ := List.mem_map.mp h2
       simp only [FItem.leaf, Leaf.matches, List.contains_cons, List.contains_nil, Bool.or_false,
@@ -332,12 +336,11 @@ theorem checkModel_refines_partial {M : Ctx} {sigma : List QN} {T : TypeTable} {
     intro it jt hit hjt hid hn
     have hm1 : it ∈ items := hsub.subset hit
     have hm2 : jt ∈ items := hsub.subset hjt
-    obtain ⟨hl1, hl2⟩ := conflict_flat (r := r) hit hjt (h.occ it hm1) (h.occ jt hm2) hn
-    have hrep : ∀ (k x : Nat), OverNames sigma (List.replicate k (it.name, x)) := by
-      intro k x c hc
-      rw [(List.mem_replicate.mp hc).2]
-      exact h.names it hm1
-    refine hupa [] _ _ it.name it.id jt.id (fun c hc => nomatch hc) (hrep _ _) (hrep _ _) (h.names it hm1) ?_
+    obtain ⟨v1, v2, hv1, hv2, hl1, hl2⟩ :=
+      conflict_flat (r := r) h.rootHi h.rootOcc hit hjt (h.occ it hm1) (h.occ jt hm2) hn
+    have hin : it.name ∈ sigma := h.names it hm1
+    refine hupa [] v1 v2 it.name it.id jt.id (fun c hc => nomatch hc)
+      (fun c hc => by rw [hv1 c hc]; exact hin) (fun c hc => by rw [hv2 c hc]; exact hin) hin ?_
       (by simpa using hl1) (by simpa using hl2)
     simp [competing, hid, hnoany]
 
@@ -499,20 +502,21 @@ example : (∀ a ∈ [qa, qb, qh, qs], (if a = qa then qa else qb) ∈ [qa, qb])
 example : ∀ l1 ∈ pOk.liveLeaves, ∀ l2 ∈ pOk.liveLeaves, l1.id ≠ l2.id → ∀ a ∈ [qb], ¬ (l1.matches a = true ∧ l2.matches a = true) := by
   decide
 
-/-- `(a{1,2} | b? | a{0,0})`: a member of the fragment of `checkModel_refines_partial` (guard holds),
-    accepted; and `(a{1,2} | b? | a)`: a member that is refused -/
+/-- `(a{1,2} | b? | a{0,0})*`: a member of the fragment of `checkModel_refines_partial` (guard holds),
+    accepted; and `(a{1,2} | b? | a)*`: a member that is refused -/
 def fragItems (hi3 : Option Nat) : List FItem := [⟨1, qa, 1, some 2⟩, ⟨2, qb, 0, some 1⟩, ⟨3, qa, 0, hi3⟩]
 def fragInfos : List (Nat × EInfo) := [(1, { name := qa, ty := 0 }), (2, { name := qb, ty := 0 }), (3, { name := qa, ty := 0 })]
 def fragT : TypeTable := [(1, [(qa, 0)]), (2, [(qb, 0)]), (3, [(qa, 0)])]
-example : Frag15 (ctxOf false 4 (flatChoice 0 (fragItems (some 0))) fragInfos) [qa, qb] fragT 0 (fragItems (some 0)) :=
-  ⟨⟨by decide, by decide, by decide, by decide, by decide, by decide⟩, by decide, by decide, by decide⟩
-example : (ctxOf false 4 (flatChoice 0 (fragItems (some 0))) fragInfos).accepts (flatChoice 0 (fragItems (some 0))) = true := by
-  decide
-example : Frag15 (ctxOf true 4 (flatChoice 0 (fragItems (some 0))) fragInfos) [qa, qb] fragT 0 (fragItems (some 0)) :=
-  ⟨⟨by decide, by decide, by decide, by decide, by decide, by decide⟩, by decide, by decide, by decide⟩
-example : Frag15 (ctxOf false 4 (flatChoice 0 (fragItems (some 1))) fragInfos) [qa, qb] fragT 0 (fragItems (some 1)) ∧
-    (ctxOf false 4 (flatChoice 0 (fragItems (some 1))) fragInfos).accepts (flatChoice 0 (fragItems (some 1))) = false :=
-  ⟨⟨⟨by decide, by decide, by decide, by decide, by decide, by decide⟩, by decide, by decide, by decide⟩, by decide⟩
+def fragP (hi3 : Option Nat) : Particle := flatChoice 0 0 none (fragItems hi3)
+example : Frag15 (ctxOf false 4 (fragP (some 0)) fragInfos) [qa, qb] fragT 0 0 none (fragItems (some 0)) :=
+  ⟨⟨by decide, by decide, by decide, by decide, by decide, by decide⟩, by decide, by decide, by decide, by decide, by decide⟩
+example : (ctxOf false 4 (fragP (some 0)) fragInfos).accepts (fragP (some 0)) = true := by decide
+example : Frag15 (ctxOf true 4 (fragP (some 0)) fragInfos) [qa, qb] fragT 0 0 none (fragItems (some 0)) :=
+  ⟨⟨by decide, by decide, by decide, by decide, by decide, by decide⟩, by decide, by decide, by decide, by decide, by decide⟩
+example : Frag15 (ctxOf false 4 (fragP (some 1)) fragInfos) [qa, qb] fragT 0 0 none (fragItems (some 1)) ∧
+    (ctxOf false 4 (fragP (some 1)) fragInfos).accepts (fragP (some 1)) = false :=
+  ⟨⟨⟨by decide, by decide, by decide, by decide, by decide, by decide⟩, by decide, by decide, by decide, by decide, by decide⟩,
+    by decide⟩
 
 /-- the hypotheses of `checkModel_accepts_edc_direct` are met by a model with two same-named elements -/
 example : (ctxOf false 4 pOk [(1, { name := qa, ty := 0 }), (2, { name := qb, ty := 0 }), (3, { name := qa, ty := 0 })]).accepts pOk = true ∧
